@@ -164,7 +164,7 @@ fn check_graph_x(stats: &mut Stats, g: &G, inputs: &[(&Vec<P>, u32)], class: &st
                 let d_end = ends.iter().fold(f64::MAX, |d, v| d.min(dist(*v, c.p)));
                 if gt(d_end, 0.05) && gt(c.sin, 0.05) {
                     let why = classify_missed_crossing(inputs, c.p);
-                    stats.fail(PROP, &format!("edges_cross.{}.{}", why, class), &format!("edges {} ({:?}, label {}) and {} ({:?}, label {}) cross at {:?} (t={}, {}; sin={}; {} from the nearest edge end; {}) {}", i, ei.cubic, ei.label, j, ej.cubic, ej.label, c.p, c.u, c.v, c.sin, d_end, why, detail()));
+                    stats.fail(PROP, &format!("edges_cross.{}.{}.input_{:016x}", why, class, fnv(&detail())), &format!("edges {} ({:?}, label {}) and {} ({:?}, label {}) cross at {:?} (t={}, {}; sin={}; {} from the nearest edge end; {}) {}", i, ei.cubic, ei.label, j, ej.cubic, ej.label, c.p, c.u, c.v, c.sin, d_end, why, detail()));
                     break 'outer;
                 }
             }
